@@ -115,7 +115,15 @@ class C06(Monitor):
             gt = net.link_from_link_id(l.link_id)
             if gt is None or gt.speed_kmph <= 0:
                 continue
-            tfull += int(l.distance_km / gt.speed_kmph * 3600)
+            d_km = l.distance_km
+            if l.start == gt.start and l.end == gt.end and l.start != l.end:
+                # driven from junction to junction: the road covered is the network's length of that link (bends included),
+                # whatever the route entry says
+                ctx.count("c06_links_driven_end_to_end")
+                if abs(l.distance_km - gt.distance_km) > 1e-9 * max(1.0, gt.distance_km):
+                    ctx.violate("C06", "driven-link-length-differs-from-network", f"{vid} drove link {l.link_id} from end to end: the route books {l.distance_km} km, the network says {gt.distance_km} km", vehicle=vid, link=l.link_id)
+                d_km = gt.distance_km
+            tfull += int(d_km / gt.speed_kmph * 3600)
         if tfull > dt:
             ctx.violate("C06", "faster-than-links-allow", f"{vid}: fully driven links need {tfull}s > step {dt}s", vehicle=vid, links=[l.link_id for l in full][:6])
         if split:
